@@ -146,7 +146,7 @@ pub fn synth_token(r: &mut Rng) -> String {
         1 => s.push_str(&chars_from(r, "abcxyzABC!$%&*/:<=>?@^_~+-.0123456789#|'\u{3bb}\u{e9}\u{2192}", 1, 6)),
         2 => {
             s.push_str("#\\");
-            s.push_str(&chars_from(r, "axXsn 0(;\u{3bb}\u{e9}\"", 1, 1));
+            s.push_str(&chars_from(r, "axXsn 0(;\u{3bb}\u{e9}\"\u{7f}\u{1b}", 1, 1));
             s.push_str(&chars_from(r, "0123456789abcdefxpace\u{3bb}\u{e9}", 0, 5));
         }
         3 => {
@@ -154,7 +154,7 @@ pub fn synth_token(r: &mut Rng) -> String {
             if r.chance(1, 2) {
                 s.push('\\');
             }
-            s.push_str(&chars_from(r, "axNuU{}+^C-M\\01234567sde(\u{3bb}\u{e9}", 1, 4));
+            s.push_str(&chars_from(r, "axNuU{}+^C-M\\01234567sde(\u{3bb}\u{e9}\u{7f}\u{1b}", 1, 4));
         }
         4 => {
             s.push('"');
